@@ -41,6 +41,7 @@ def _findings(root, rid):
     mod = importlib.import_module(_rule_module(rid))
     res = mod.run(repo)
     res.check_floor()
+    res.check_opaque(repo)
     return {f.key: f for f in res.findings}
 
 
